@@ -473,7 +473,7 @@ Section Total3.
       destruct (remove_anonymous_from_statement env lib (Some (Variable_ m name [])) s) as [[s1 d1]| | |];
         cbn [dbind no_crash] in *; try tauto; [|split; [exact I | intros ? ? E; discriminate]].
       destruct (HT _ _ eq_refl) as (L1 & L2 & L3).
-      destruct (negb (is_nil d1)); (split; [exact I|]); intros ? ? E; inv_ok; simpl; repeat split; auto;
+      destruct (existsb (decl_uses_counter name) d1); (split; [exact I|]); intros ? ? E; inv_ok; simpl; repeat split; auto;
         repeat (apply Forall_cons; [first [exact I | right; reflexivity]|]); auto.
     - destruct (contains_anon v); [apply ras_T_fail; tauto | apply ras_T_ok_val; exact I].
     - (* InitializationBlock *)
